@@ -157,6 +157,8 @@ func doDump(p *Prog, what string) {
 				fmt.Printf("      %-3s %-50s %s held=%s\n", k, a.Fn.String(), p.PosOf(a.Pos), a.Held)
 			}
 		}
+	case what == "notifiers":
+		dbgNotifiers(p)
 	case strings.HasPrefix(what, "callers:"):
 		dbgCallers(p, strings.TrimPrefix(what, "callers:"))
 	case strings.HasPrefix(what, "facts:"):
@@ -182,4 +184,24 @@ func dbgCallers(p *Prog, name string) {
 			}
 		}
 	}
+}
+
+func dbgNotifiers(p *Prog) {
+	for _, n := range []string{"chReadEvent", "chWriteEvent"} {
+		m := p.notifiers(p.Field("UDPSession", n))
+		for f := range m {
+			fmt.Println(n, "notifier:", funcDisplayName(f))
+		}
+	}
+	fi := p.FuncByName("(*UDPSession).kcpInput")
+	c := p.CFG(fi)
+	for _, b := range c.live {
+		if ct := c.CondTerm(b); ct != nil {
+			pt := Point{b, len(b.Nodes) - 1}
+			fs := p.FactsOf(fi).At(pt)
+			fmt.Println(p.Pos(pt.Node()), "cond", ct.Key(), "=>", fs.Resolve(p.ExpandHelpers(ct)).Key())
+		}
+	}
+	recv := p.recvVar(fi)
+	fmt.Println("want", p.readAvailTerm(tFld(tVar(recv), p.Field("UDPSession", "kcp"))).Key())
 }
